@@ -45,7 +45,8 @@ def herd_obs(fm, feed_avail, grass_avail, tag):
     sp = []
     for a in fm.all_animals:
         sp.append(dict(type=a.animal_type, size=a.animal_size, milk=("milk" in a.animal_type),
-                       slaughter=fl(a.slaughter), population=fl(a.population)))
+                       slaughter=fl(a.slaughter), population=fl(a.population),
+                       initial=float(getattr(a, "initital_population", float("nan")))))
     return dict(tag=tag, species=sp, feed_used=fl(fm.feed_used.kcals), grass_used=fl(fm.grass_used.kcals),
                 feed_avail=fl(feed_avail.kcals), grass_avail=fl(grass_avail.kcals), oid=id(fm))
 
